@@ -139,6 +139,27 @@ def run(ctx):
                 ev.append(e)
         tid += 1
         trs.append({"tid": tid, "seq": list(seq), "after": hist, "ev": ev})
+    # beyond the random bound: long single-residue runs with windows of 33 and more; steps of 49 and more dividing N - w
+    for rep in range(ctx.pick(4, 12)):
+        blocks = "".join(ctx.rng.choice("LFEKGS") * ctx.rng.randint(7, 40) for _ in range(ctx.rng.randint(3, 6)))
+        o = lc.SP(blocks)
+        ev = []
+        for size in (3, 4, 20):
+            w = ctx.rng.randint(33, min(len(blocks), 64))
+            e = event(ctx, lc, o, blocks, "WF", size, None, w, ctx.rng.choice([1, 2, 5]), 3, need)
+            if e:
+                ev.append(e)
+        tid += 1
+        trs.append({"tid": tid, "seq": list(blocks), "ev": ev})
+    for s_ in (49, 98, 103, 107, 161)[:ctx.pick(3, 5)]:
+        for ctype in ("LZW", "WF", "LC"):
+            w = ctx.rng.randint(2, 6)
+            N = w + s_ * ctx.rng.randint(1, 2)
+            seq = common.random_sequences(ctx.rng, 1, N, N)[0]
+            e = event(ctx, lc, lc.SP(seq), seq, ctype, 20, None, w, s_, 3, need)
+            if e:
+                tid += 1
+                trs.append({"tid": tid, "seq": list(seq), "ev": [e]})
     ent = [{"k": k, "w": w, "h": kernels.entropy_row(k, w)} for (k, w) in sorted(need) if k >= 2]
     verdicts, _ = traces.validate(ctx, "Trace_Queries", trs, {"sqrt": [], "ent": ent})
     for tr in trs:
